@@ -301,7 +301,7 @@ def run(tier):
     if forced == 0 or skipped > forced:
         chk.infra.append("forced-schedule replay is (nearly) vacuous: %d steps forced, %d skipped" % (forced, skipped))
     # 3. backward conformance: traces of unforced concurrent load validated by TLC
-    record_and_validate(chk, 10 if quick else 150, rng)
+    record_and_validate(chk, 16 if quick else 150, rng)
     # 4. Prop_FlushCovers / the full drain of W_FlushQ and A_BeginQ on the real LazyAOFWriter at a scale where its
     #    size limits matter (maxBufferSize 1..3, bursts beyond it queued while the writer goroutine is parked)
     flush_coverage(chk, 80 if quick else 1500, rng)
